@@ -207,11 +207,11 @@ class Module:
         self.normalisation = None
         self.finish(None)
 
-    def finish(self, sibling_consts):
+    def finish(self, sibling_consts, sibling_funcs=None):
         """(re)build the tree the rules see: the source tree canonicalised by normalize.py (see there), then indexed"""
         if sibling_consts is not None and os.environ.get('N2K_NO_NORMALIZE') != '1':
             from . import normalize
-            self.tree, self.normalisation = normalize.normalize_module(self.name, ast.parse(self.src), sibling_consts)
+            self.tree, self.normalisation = normalize.normalize_module(self.name, ast.parse(self.src), sibling_consts, sibling_funcs)
         for parent in ast.walk(self.tree):
             for ch in ast.iter_child_nodes(parent):
                 ch._parent = parent
@@ -273,6 +273,22 @@ class Program:
                 m.finish(exported)
             except RecursionError as e:
                 raise AnalysisError(f"{PKG}/{nm}.py: canonicalisation failed: {e}")
+        # closed helper functions a sibling module imports are inlined there as well (second pass for the importing modules only)
+        if os.environ.get('N2K_NO_NORMALIZE') != '1':
+            funcs = {}
+            for nm, m in self.modules.items():
+                try:
+                    funcs[nm] = normalize.exported_functions(nm, m.tree)
+                except Exception:
+                    funcs[nm] = {}
+            for nm, m in self.modules.items():
+                uses = any(isinstance(st, ast.ImportFrom) and st.level == 1 and st.module in funcs and st.module != nm and any(al.name in funcs[st.module] for al in st.names)
+                           for st in m.raw_tree.body)
+                if uses:
+                    try:
+                        m.finish(exported, funcs)
+                    except RecursionError as e:
+                        raise AnalysisError(f"{PKG}/{nm}.py: canonicalisation failed: {e}")
         self.t_hand = time.time() - t0
         self._gen = None
         self._db = None
